@@ -1,6 +1,6 @@
 """C11 — TCP exporter streams whole frames to every connected client, whatever others do."""
 from facts import Sym, path_is, strip_generics, strip_sym, sym_arg, sym_calls, sym_is_call, sym_str, sym_through, sym_walk, is_foreign_exp
-from props.common import arg_syms, bool_switches, callee_method_name, calls_to, crate_stats, enum_arms, gates, in_cycle, kind_consistent, need, nonforeign_calls, one_method, recorder_impls, RECORDER_METHODS
+from props.common import is_increment, arg_syms, bool_switches, callee_method_name, calls_to, crate_stats, enum_arms, gates, in_cycle, kind_consistent, need, nonforeign_calls, one_method, recorder_impls, RECORDER_METHODS
 
 KEEP = [  # private helpers the rules name (kept as functions); every other non-exported, non-trait function is spliced into its callers
     "Handle::new", "State::decrement_clients", "State::increment_clients", "State::new",
@@ -32,6 +32,90 @@ def flat(s):
             out += flat(x)
         return out
     return [s]
+
+
+def _single_def(b, l):
+    ds = b.defs().get(l, [])
+    return ds[0] if len(ds) == 1 else None
+
+
+def _root_named_local(b, op, depth=0):
+    """The mutable user variable an operand's value is read from: follows single-definition locals through copies,
+    field reads, one-field aggregates, and — for a call result — the call's `&mut` argument."""
+    pl = op.get("copy") or op.get("move")
+    if pl is None or depth > 10:
+        return None
+    l = pl["l"]
+    here = l if b.local_name(l) else None
+    d = _single_def(b, l)
+    if d is None:
+        return here
+    if d[0] == "call":
+        for a in d[3].get("args", []):
+            al = (a.get("move") or a.get("copy") or {}).get("l")
+            da = _single_def(b, al) if al is not None else None
+            for _ in range(4):  # reborrows: _a = &mut *_b; _b = &mut var
+                if da is not None and da[0] == "assign" and da[3]["rv"]["k"] in ("ref", "rawptr") and da[3]["rv"].get("mut"):
+                    tl = da[3]["rv"]["p"]["l"]
+                    if "*" in (da[3]["rv"]["p"].get("pr") or []):
+                        da = _single_def(b, tl)
+                        continue
+                    if b.local_name(tl):
+                        return tl
+                break
+        return here
+    rv = d[3]["rv"]
+    r = None
+    if rv["k"] in ("use", "cast"):
+        r = _root_named_local(b, rv["a"], depth + 1)
+    elif rv["k"] == "agg" and len(rv.get("ops", [])) == 1:
+        r = _root_named_local(b, rv["ops"][0], depth + 1)
+    return r if r is not None else here
+
+
+def _writes_to(fn, L, through_param=False):
+    """Writes to the variable L of fn (or, with through_param, through the `&mut` parameter L): [(line, description, ok)]."""
+    b = fn.body
+    sy = Sym(fn)
+    out = []
+    ptrs = set()
+    for i, k, st in b.stmts():
+        if st["k"] == "assign" and st["rv"]["k"] in ("ref", "rawptr") and st["rv"].get("mut") and st["rv"]["p"]["l"] == L:
+            ptrs.add(st["p"]["l"])
+    for _ in range(3):  # reborrows of those pointers
+        for i, k, st in b.stmts():
+            if st["k"] == "assign" and st["rv"]["k"] in ("ref", "rawptr") and st["rv"].get("mut") and st["rv"]["p"]["l"] in ptrs and "*" in (st["rv"]["p"].get("pr") or []):
+                ptrs.add(st["p"]["l"])
+            if st["k"] == "assign" and st["rv"]["k"] == "use" and (st["rv"]["a"].get("move") or {}).get("l") in ptrs and not (st["rv"]["a"]["move"].get("pr")):
+                ptrs.add(st["p"]["l"])
+    for i, k, st in b.stmts():
+        if st["k"] != "assign":
+            continue
+        pl = st["p"]
+        direct = pl["l"] == L and (not through_param or "*" in (pl.get("pr") or []))
+        via_ptr = pl["l"] in ptrs and "*" in (pl.get("pr") or [])
+        if not (direct or via_ptr):
+            continue
+        if pl["l"] == L and not through_param and not in_cycle(b, i):
+            continue  # initialisation
+        v = sy.rvalue(st["rv"], 0, frozenset())
+        out.append((st.get("ln", 0), sym_str(v)[:80], is_increment(v)))
+    for c in b.calls():
+        if c.t.get("dest", {}).get("l") == L and not through_param and in_cycle(b, c.bb):
+            out.append((c.line, f"= {callee_method_name(c)}(..)", False))
+        for a in c.args:
+            al = (a.get("move") or a.get("copy") or {}).get("l")
+            if al in ptrs or (through_param and al == L):
+                tgt = None
+                if not c.foreign():
+                    tgt = next((g for g in fn.crate.fns if g.path == (c.resolved or c.callee)), None)
+                if tgt is None or tgt is fn:
+                    out.append((c.line, f"&mut passed to {callee_method_name(c)}", False))
+                else:
+                    idx = c.args.index(a) + 1
+                    inner = _writes_to(tgt, idx, through_param=True)
+                    out.append((c.line, f"&mut passed to {tgt.name}: {[d for _l, d, _o in inner]}", bool(inner) and all(o for _l, _d, o in inner)))
+    return out
 
 
 def run(ctx):
@@ -184,6 +268,42 @@ def run(ctx):
             v = strip_sym(sy.operand(inserts[0].args[2]))
             okm = v[0] == "agg" and v[1] == "tuple" and len(v[3]) == 3 and sym_is_call(v[3][2], "generate_metadata_messages") and strip_sym(v[3][1])[0] == "agg" and strip_sym(v[3][1])[2] == "None"
             chk.ob("C11.d", f"{rt.path} [new client queue]", okm, "a new client starts with (conn, no remainder, metadata messages)" if okm else "a new client's queue does not start with the known metadata", inserts[0].loc())
+        # client tokens are never reused: a token that is still some client's key would make clients.insert replace
+        # (in this code: panic on) a live client
+        if inserts:
+            chk.rule("C11.e", "FRESH client tokens: the key under which a new client is inserted comes from a counter that, inside the event loop, is only ever advanced by one — a token still held by a live client is never handed out again", floor=1)
+            L = _root_named_local(b, inserts[0].args[1])
+            if L is None:
+                chk.unrecognised("C11.e", f"{rt.path} [token source]", "cannot see which variable the new client's token is taken from", inserts[0].loc())
+            else:
+                ws = _writes_to(rt, L)
+                okw = bool(ws) and all(o for _l, _d, o in ws)
+                bad = [(l_, d_) for l_, d_, o in ws if not o]
+                chk.ob("C11.e", f"{rt.path} [token counter {b.local_name(L)}]", okw, f"{len(ws)} write(s) inside the loop, each `+ 1`" if okw else (f"the token counter is written by something other than an increment at line {bad[0][0]} ({bad[0][1]}): a token can be handed out while a live client still holds it" if bad else "the token counter is never advanced: every client gets the same token"), inserts[0].loc())
+        # what one pass takes in is what one pass hands on: the fan-out forwards at most `limit` of the gathered messages
+        # (take(limit)) and drops from a client's queue only what exceeds the limit, so the gathering loop must stop at limit
+        takes = [c for c in nonforeign_calls(rt) if c.fn is rt and c.is_("Iterator::take") and sym_is_call(strip_sym(arg_syms(c)[0]), "VecDeque<T, A>::iter", "iter")]
+        if takes:
+            chk.rule("C11.f", "RANGE intake bound: a message is appended to the per-pass queue only while the queue is strictly shorter than the limit the fan-out forwards (take(limit)) — otherwise the newest message of a full pass is silently discarded for every client, or the drain range exceeds a client's queue", floor=1)
+            qsym = repr(strip_sym(strip_sym(arg_syms(takes[0])[0])[2][0]))
+            lim = repr(strip_sym(arg_syms(takes[0])[1]))
+            pushes = [c for c in nonforeign_calls(rt) if c.fn is rt and c.is_("VecDeque<T, A>::push_back", "push_back") and repr(strip_sym(arg_syms(c)[0])) == qsym]
+            if not pushes:
+                chk.unrecognised("C11.f", f"{rt.path} [intake]", "no push_back onto the queue that the fan-out forwards", takes[0].loc())
+            for pc in pushes:
+                okb = False
+                for dd, lab in gates(b, pc.bb):
+                    dd = strip_sym(dd)
+                    if dd[0] != "bin" or dd[1] not in ("Lt", "Le", "Gt", "Ge"):
+                        continue
+                    a_, b_ = strip_sym(dd[2]), strip_sym(dd[3])
+                    is_len = lambda x: sym_is_call(x, "VecDeque<T, A>::len", "len") and repr(strip_sym(x[2][0])) == qsym
+                    is_lim = lambda x: repr(x) == lim
+                    if is_len(a_) and is_lim(b_):
+                        okb = okb or (dd[1] == "Lt" and lab is True) or (dd[1] == "Ge" and lab is False)
+                    if is_lim(a_) and is_len(b_):
+                        okb = okb or (dd[1] == "Gt" and lab is True) or (dd[1] == "Le" and lab is False)
+                chk.ob("C11.f", f"{rt.path} [intake bound]", okb, "push_back only under len(queue) < limit" if okb else "a message can be appended when the per-pass queue already holds `limit` messages: the fan-out forwards only `limit` of them", pc.loc())
         # capacity
     caps = []
     for f in t.fns:
